@@ -230,6 +230,9 @@ class Board:
         Returns False when the run is over."""
         if self.host_errors is None:
             self.host_errors = []
+        if M.PENDING:
+            for c in self.cores:
+                M.finish(c.arm)          # (instances whose set-up was deferred are loaded when their board first runs)
         if self.tick >= self.max_ticks or self.stop:
             return False
         while self.ev_pos < len(self.events) and self.events[self.ev_pos][1]['tick'] <= self.tick:
